@@ -93,6 +93,17 @@ PROPS["C14"] = {
     "level_note": "time / memory of the leaves' own decoders (curve points, ML-KEM keys) and of the allocator are outside the model; the worker-process oracle measures them with fixed linear bounds",
 }
 
+PROPS["C16"] = {
+    "modules": ["CC.Props.C16"], "campaigns": [hist("C16", BOTH)], "quick_configs": ONE,
+    "level_text": "PARTIAL. Lean theorems over the model with the CSPRNG idealised as a counter of fresh tokens: the seed of every encapsulation, the AEAD nonce of every PKE ciphertext and of every encrypted metadata, the markers of every user id and the secret of every rekey are draws of their own and the counter only moves forward, so values of different calls differ for any history; the metadata key differs from the returned secret. The part a model cannot exhibit (weak or mis-seeded generator, cloned state, entropy failure) is only supported by a long run of identical calls across threads and instances whose extracted tags, traps, masked seeds, ciphertexts, nonces, ids and public values must be pairwise distinct",
+    "level_note": "CsRng idealised: every draw is a fresh atom; hash / KDF outputs injective in their inputs; the statistical run is support, not proof",
+}
+PROPS["C19"] = {
+    "modules": ["CC.Props.C19"], "campaigns": [hist("C19", BOTH)], "quick_configs": ONE,
+    "level_text": "PARTIAL. The lock-acquisition structure of every public function of api.rs and of EncryptedHeader::{generate,decrypt} is re-extracted from the source on every run; Lean theorems: the table is well nested (no acquisition and no call to a locking function while the guard is held: `decide`), and for any number of threads running any sequences of well-nested calls: mutual exclusion, no deadlock (progress), preservation of the invariant, and termination of every schedule (each step consumes an event). The Rust memory model, the Mutex implementation, poisoning and OS scheduling are outside the model: a 2..16-thread stress run on one shared instance with result checks and a watchdog is support for that part",
+    "level_note": "std::sync::Mutex idealised (mutual exclusion; guard released at end of scope: temporaries at the end of the statement, `let` guards at the end of the block); tools/gen_locks.py (a small tokenizer, fail-closed) trusted",
+}
+
 # operations whose ok/err status or outcome is what the property talks about
 BEHAVIOUR_KINDS = {"behaviour", "status", "panic"}
 
